@@ -462,34 +462,44 @@ def stationUsesRespParams (disable : Bool) (rr : Option Resp) : Bool :=
 def stationDerived (disable : Bool) (dC dR : Derived) (rr : Option Resp) : Derived :=
   if stationUsesRespParams disable rr then dR else dC
 
+/-- the parameters the station registers: the response's if present and allowed, else the client's -/
+def stationParams (disable : Bool) (clientParams : Option Params) (rr : Option Resp) : Option Params :=
+  match rr with
+  | some r => if r.params.isSome && !disable then r.params else clientParams
+  | none => clientParams
+
+/-- `ipOverride`: the response's address of the family being built (IPv4: if non-zero) -/
+def stationOverride (v6 : Bool) (rr : Option Resp) : Option Addr :=
+  match rr with
+  | none => none
+  | some r =>
+    if v6 then r.v6.map .raw
+    else (match r.v4 with | some a => if a != 0 then some (.v4 a) else none | none => none)
+
+/-- `ipOverride.To16() == nil || (ipOverride.To4() == nil) != includeV6` -/
+def overrideBad (v6 : Bool) (o : Option Addr) : Bool :=
+  match o with
+  | some o => o.kind == IPKind.invalid || ((o.kind != IPKind.v4) != v6)
+  | none => false
+
+/-- `reg.PhantomPort = uint16(dstPort)` if the response carries a port -/
+def stationPort (derivedPort : Nat) (rr : Option Resp) : Nat :=
+  match rr with
+  | some r => (match r.port with | some p => p % 65536 | none => derivedPort)
+  | none => derivedPort
+
 /-- `NewRegistrationC2SWrapper (c2sw, includeV6)`: the response overrides the port if present, the address
 of the family being built if present (IPv4: and non-zero) and of that family, and the parameters if
 present and allowed; then the registrant's address is checked against the phantom. -/
 def stationApply (v6 disable : Bool) (clientParams : Option Params) (dC dR : Derived) (src : IPKind)
     (rr : Option Resp) : StationOut :=
-  let params := match rr with
-    | some r => if r.params.isSome && !disable then r.params else clientParams
-    | none => clientParams
-  let ipOverride : Option Addr := match rr with
-    | none => none
-    | some r =>
-      if !v6 then (match r.v4 with | some a => if a != 0 then some (.v4 a) else none | none => none)
-      else r.v6.map .raw
   match stationDerived disable dC dR rr with
   | .fail => .reject "build"
   | .ok dph dport =>
-    -- `ipOverride.To16() == nil || (ipOverride.To4() == nil) != includeV6`
-    let bad := match ipOverride with
-      | some o => o.kind == IPKind.invalid || ((o.kind != IPKind.v4) != v6)
-      | none => false
-    if bad then .reject "override" else
-    let ph := ipOverride.getD dph
+    if overrideBad v6 (stationOverride v6 rr) then .reject "override" else
     if src == IPKind.invalid then .reject "regaddr" else
-    if ph.kind == IPKind.v4 && src != IPKind.v4 then .reject "family" else
-    let port := match rr with
-      | some r => (match r.port with | some p => p % 65536 | none => dport)    -- `uint16(dstPort)`
-      | none => dport
-    .ok ph port params
+    if ((stationOverride v6 rr).getD dph).kind == IPKind.v4 && src != IPKind.v4 then .reject "family" else
+    .ok ((stationOverride v6 rr).getD dph) (stationPort dport rr) (stationParams disable clientParams rr)
 
 /-- the parameters the client ends up using, by the same rule -/
 def clientParams (req : Req) (c : Resp) : Option Params :=
